@@ -1,10 +1,14 @@
 #!/bin/bash
-# usage: tools/mutrun.sh <patch.diff> <ID> [<ID> ...]   -- apply a patch to /repo, run the quick checks, always revert
+# usage: tools/mutrun.sh <patch.diff> <ID> [<ID> ...]
+# applies a patch to a private worktree of /repo (never to /repo itself), runs the quick checks against it, removes nothing
 P="$1"; shift
-cd /repo && git apply "$P" || { echo "patch does not apply"; exit 3; }
+WT=${MUT_WT:-/tmp/wt_main}
+[ -d "$WT" ] || git -C /repo worktree add --detach "$WT" >/dev/null 2>&1
+git -C "$WT" checkout -q --detach $(git -C /repo rev-parse HEAD) && git -C "$WT" checkout -- . 
+git -C "$WT" apply "$P" || { echo "patch does not apply"; exit 3; }
 cd /verif
 for id in "$@"; do
-  ./check "$id" > /tmp/mutrun_$id.log 2>&1; rc=$?
-  echo "== $id rc=$rc: $(grep -c '^VIOLATION' /tmp/mutrun_$id.log) violation line(s)"; grep -A1 '^VIOLATION' /tmp/mutrun_$id.log | head -6; tail -1 /tmp/mutrun_$id.log
+  VERIF_REPO="$WT" ./check "$id" > /tmp/mutrun_$id.log 2>&1; rc=$?
+  echo "== $id rc=$rc: $(grep -c '^VIOLATION' /tmp/mutrun_$id.log) violation line(s)"; grep -A1 '^VIOLATION' /tmp/mutrun_$id.log | grep -v '^--' | head -6; tail -1 /tmp/mutrun_$id.log
 done
-git -C /repo checkout -- . ; git -C /repo status --short | head -3
+git -C "$WT" checkout -- .
